@@ -11,7 +11,7 @@ OTHER = {"ode": ["initial_condition", "observations"], "statio": ["norm_loss", "
          "nonstatio": ["norm_loss", "boundary_loss", "observations", "initial_condition"]}
 
 
-def gen(rng, kind):
+def gen(rng, kind, force_pbatch_noobs=False):
     nv = nvars(kind, 1)
     nu, ne = rng.randint(1, 3), rng.randint(1, 3)
     # key names in any (not necessarily alphabetical) insertion order: weights and terms go with names, not positions
@@ -46,11 +46,11 @@ def gen(rng, kind):
     cfg["via_call"] = rng.random() < 0.5
     # a parameter batch: every equation reads eq_params["junk"] through a term 1000 * (junk - 2) that vanishes only with the
     # batch rows (all 2); the nominal value is 1, so a dropped or misaligned parameter batch moves every residual by 1000
-    cfg["pbatch"] = rng.random() < 0.4
+    cfg["pbatch"] = force_pbatch_noobs or rng.random() < 0.4
     # ... or eq_params["junk"] is declared heterogeneous: its nominal value is 1, its function gives 2 at every point, so an
     # equation that is handed the raw parameters instead of the evaluated ones is off by 1000 as well
     cfg["het"] = (not cfg["pbatch"]) and rng.random() < 0.5
-    if cfg["pbatch"] and rng.random() < 0.5:
+    if cfg["pbatch"] and (force_pbatch_noobs or rng.random() < 0.5):
         cfg["obs"] = {k: None for k in ukeys}        # ... also without any observation part
     cfg["statio_unknowns"] = []
     if kind == "nonstatio" and nu >= 2 and rng.random() < 0.5:
@@ -281,7 +281,8 @@ def generate(tier, seed, casedir, variant):
     nontrivial = set()
     N = 36 if tier == "quick" else 240
     for cid in range(N):
-        cfg = gen(rng, ["ode", "statio", "nonstatio"][cid % 3])
+        # (the first ODE / stationary / non-stationary cases always carry a parameter batch and no observation part)
+        cfg = gen(rng, ["ode", "statio", "nonstatio"][cid % 3], force_pbatch_noobs=(cid in (0, 4, 8, 12)))
         try:
             tot, terms, sing = evaluate(cfg)
         except Exception as ex:
